@@ -214,6 +214,43 @@ def run(ctx):
                              "channel": "file", "doc": doc[:2000], "line": lines[j + first] if j + first < len(lines) else None})
         finally:
             os.remove(path)
+    # very long lines (a WKT polygon, an abstract, a base64 blob): lexical forms around and beyond 2^16 and 2^17 characters, every suffix
+    # form, a few awkward atoms sprinkled in; one document, read as a string, from a file, from a gz file and from a zip member
+    import tempfile, os, gzip, zipfile
+    sufs_long = [('none',), ('lang', 'en-GB'), ('dt', DTS[0]), ('dt', XSD + 'integer'), ('dt', DTS[7])]
+    long_cases = []
+    for k, n in enumerate([65500, 65536, 65600, 131072 + 17, 200000][:3 if ctx.tier == "quick" else 5]):
+        for q, sf in enumerate(sufs_long):
+            body = ("ab " + rng.choice(['\\"@en ', '^^<x> ', ' . # ', 'é'])) * (n // 8)
+            body = body[:n - 3] + rng.choice(['\\"@', 'x^^', ' .#'])
+            long_cases.append((('I', IRIS[(k + q) % len(IRIS)]), ('I', IRIS[q % 5]), ('L', body, sf)))
+    ldoc = "\n".join(render(st, LAYOUTS[i % 2]) for i, st in enumerate(long_cases)) + "\n"
+    lexp = [expected(st) for st in long_cases]
+    fd, path = tempfile.mkstemp(prefix="verif_c06_long_", suffix=".nt")
+    try:
+        with os.fdopen(fd, "w", encoding="utf-8", newline="") as fh:
+            fh.write(ldoc)
+        with gzip.open(path + ".gz", "wt", encoding="utf-8", newline="") as fh:
+            fh.write(ldoc)
+        with zipfile.ZipFile(path + ".zip", "w") as z:
+            z.writestr("d.nt", ldoc)
+        zf = zipfile.ZipFile(path + ".zip")
+        for cname, rr in [("string", read_impl(ldoc)), ("file", read_impl(None, source_file=path)),
+                          ("gz file", read_impl(None, source_file=path + ".gz", compression_mode="gz")),
+                          ("zip member", read_impl(None, source_file="d.nt", compression_mode="zip", zip_base_archive=zf))]:
+            stats["long_line_documents"] = stats.get("long_line_documents", 0) + 1
+            if rr[0] != 'ok' or rr[1] != lexp or rr[2] != 0:
+                first = next((k for k, (a, b) in enumerate(zip(rr[1], lexp)) if a != b), min(len(rr[1]), len(lexp)))
+                viol.append({"what": "document of %d very long statements (lexical forms of 65 500 .. 200 000 characters) read as %s: %s" % (
+                    len(long_cases), cname, rr[0] if rr[0] != 'ok' else "%d triples for %d statements, %d error lines; first difference at statement %d "
+                    "(lexical form of %d characters)" % (len(rr[1]), len(lexp), rr[2], first, len(long_cases[min(first, len(long_cases) - 1)][2][1]))),
+                    "channel": cname, "got": rr[1][first:first + 1], "expected": [list(x) for x in lexp[first:first + 1]],
+                    "long_line_family": {"seed": ctx.seed, "statement": first}})
+        zf.close()
+    finally:
+        for x in (path, path + ".gz", path + ".zip"):
+            if os.path.exists(x):
+                os.remove(x)
     # correspondence with the model
     if ctx.driver_ok:
         mres = model.run_driver(mlines + ["RUN\tntlines\tall"]).get("all", [])
